@@ -138,6 +138,19 @@ def execute(data, tool, args=(), name='in.exp', path=None, timeout=60):
             os.mkdir(os.path.join(top, 'src'))
             path = os.path.join(top, 'src', name)
             if data is not None:        # data None: the named input file does not exist
+                if data.startswith(b'@@MAIN '):
+                    # multi-file input: "@@MAIN name@@\n<main text>@@FILE name@@\n<text>..." - the main file is named as a user in
+                    # its directory would name it; the other files sit in the working directory, where the tools look for
+                    # <schema>.exp of a schema named in USE / REFERENCE FROM
+                    head, _, rest = data.partition(b'@@\n')
+                    mname = head[len(b'@@MAIN '):].decode()
+                    parts = rest.split(b'@@FILE ')
+                    data = parts[0]
+                    path = os.path.join(wd, mname)
+                    for seg in parts[1:]:
+                        fname, _, ftext = seg.partition(b'@@\n')
+                        with open(os.path.join(wd, fname.decode()), 'wb') as f:
+                            f.write(ftext)
                 if b'@SELF@' in data:   # INCLUDE shapes name the input file itself
                     data = data.replace(b'@SELF@', path.encode())
                 with open(path, 'wb') as f:
